@@ -36,9 +36,27 @@ Qed.
 Definition entry_ok (cfg : rcfg) (e : entry) : Prop :=
   (e_loaded e = true <-> e_list e <> None) /\ (forall l, e_list e = Some l -> list_ok cfg l).
 
-Definition Inv (cfg : rcfg) (st : rstate) : Prop :=
-  Forall (fun p => entry_ok cfg (snd p)) (entries st) /\
-  Forall (fun p => list_ok cfg (fst (snd p))) (disk st).
+(* what may lie on disk, whatever configuration wrote it: a parseable list, and a signer certificate
+   only next to a list whose signature verified *)
+Definition disk_wf (r : crl * option N) : Prop :=
+  l_parse_ok (fst r) = true /\ (snd r <> None -> l_sig_ok (fst r) = true).
+
+Lemma policy_records_verified p m v : policy_records_signer (policy_of p) m v = true -> v = true.
+Proof. destruct p, m, v; cbv; congruence. Qed.
+
+Lemma accepts_disk_wf cfg p a avail f l sg : accepts cfg p a avail f = Some (l, sg) -> disk_wf (l, sg).
+Proof.
+  unfold accepts. destruct f, a as [| |l0]; try discriminate.
+  - destruct (l_parse_ok l0) eqn:Ep; [|discriminate]. cbn [andb].
+    destruct (policy_accepts _ _ _); [|discriminate].
+    destruct (policy_records_signer _ _ _) eqn:Er; intros [= <- <-]; split; simpl; try exact Ep; [|congruence].
+    intros _. apply policy_records_verified in Er. unfold verified in Er. apply andb_prop in Er. tauto.
+  - destruct (k <? _)%nat; [discriminate|].
+    destruct (l_parse_ok l0) eqn:Ep; [|discriminate]. cbn [andb].
+    destruct (policy_accepts _ _ _); [|discriminate].
+    destruct (policy_records_signer _ _ _) eqn:Er; intros [= <- <-]; split; simpl; try exact Ep; [|congruence].
+    intros _. apply policy_records_verified in Er. unfold verified in Er. apply andb_prop in Er. tauto.
+Qed.
 
 Lemma ident_eqb_eq a b : ident_eqb a b = true -> a = b.
 Proof.
@@ -84,16 +102,27 @@ Proof.
     + destruct (ident_eqb id' k); [reflexivity|exact IH].
 Qed.
 
-(* ---- intake *)
+(* ---- the invariant, generic in what is known about the disk: D cfg r must follow from an
+   accepted intake under cfg and must make an adopted list acceptable under cfg *)
+Section Generic.
+Variable D : rcfg -> crl * option N -> Prop.
+Hypothesis D_accepts : forall cfg p a avail f l sg, accepts cfg p a avail f = Some (l, sg) -> D cfg (l, sg).
+Hypothesis D_adopt : forall cfg l sg chain, D cfg (l, sg) -> adopt_counts cfg sg chain = true -> list_ok cfg l.
+
+Definition InvG (cfg : rcfg) (st : rstate) : Prop :=
+  Forall (fun p => entry_ok cfg (snd p)) (entries st) /\
+  Forall (fun p => D cfg (snd p)) (disk st).
+
 Lemma intake_spec cfg ev p id e avail f :
   let '(e', r) := intake cfg ev p id e avail f in
   (r = None /\ e' = e) \/
-  (exists l sg loc, r = Some (l, sg) /\ ev loc = Serve l /\ list_ok cfg l /\
+  (exists l sg loc, r = Some (l, sg) /\ ev loc = Serve l /\ list_ok cfg l /\ D cfg (l, sg) /\
      e' = {| e_locs := e_locs e; e_list := Some l; e_loaded := true; e_chain := []; e_signer := sg |}).
 Proof.
   unfold intake. destruct (e_locs e) as [|loc locs]; [left; auto|].
   destruct (accepts cfg p (ev loc) avail f) as [[l sg]|] eqn:Ea; [|left; auto].
-  right. apply accepts_ok in Ea. destruct Ea as (Hs & Hok & _). exists l, sg, loc. auto.
+  right. pose proof (D_accepts _ _ _ _ _ _ _ Ea) as HD.
+  apply accepts_ok in Ea. destruct Ea as (Hs & Hok & _). exists l, sg, loc. auto.
 Qed.
 
 Lemma intake_entry_ok cfg ev p id e avail f :
@@ -101,29 +130,29 @@ Lemma intake_entry_ok cfg ev p id e avail f :
 Proof.
   intros He. pose proof (intake_spec cfg ev p id e avail f) as H.
   destruct (intake cfg ev p id e avail f) as [e' r]. simpl.
-  destruct H as [[_ ->]|(l & sg & loc & _ & _ & Hok & ->)]; [exact He|].
+  destruct H as [[_ ->]|(l & sg & loc & _ & _ & Hok & _ & ->)]; [exact He|].
   split; simpl; [split; [discriminate|reflexivity]|intros l0 [= <-]; exact Hok].
 Qed.
 
 Lemma intake_result_ok cfg ev p id e avail f l sg :
-  snd (intake cfg ev p id e avail f) = Some (l, sg) -> list_ok cfg l.
+  snd (intake cfg ev p id e avail f) = Some (l, sg) -> D cfg (l, sg).
 Proof.
   pose proof (intake_spec cfg ev p id e avail f) as H.
   destruct (intake cfg ev p id e avail f) as [e' r]. simpl.
-  destruct H as [[-> _]|(l' & sg' & loc & -> & _ & Hok & _)]; [discriminate|intros [= <- _]; exact Hok].
+  destruct H as [[-> _]|(l' & sg' & loc & -> & _ & _ & HD & _)]; [discriminate|intros [= <- <-]; exact HD].
 Qed.
 
 Lemma persist_ok cfg id r d :
-  Forall (fun p => list_ok cfg (fst (snd p))) d ->
-  (forall l sg, r = Some (l, sg) -> list_ok cfg l) ->
-  Forall (fun p => list_ok cfg (fst (snd p))) (persist cfg id r d).
+  Forall (fun p => D cfg (snd p)) d ->
+  (forall l sg, r = Some (l, sg) -> D cfg (l, sg)) ->
+  Forall (fun p => D cfg (snd p)) (persist cfg id r d).
 Proof.
   intros Hd Hr. unfold persist. destruct (r_storage cfg); [exact Hd|]. destruct r as [[l sg]|]; [|exact Hd].
   apply update_forall; [exact Hd|]. intros k _. simpl. apply (Hr l sg eq_refl).
 Qed.
 
 Lemma update_one_inv cfg ev f st id e :
-  Inv cfg st -> entry_ok cfg e -> Inv cfg (update_one cfg ev f st id e).
+  InvG cfg st -> entry_ok cfg e -> InvG cfg (update_one cfg ev f st id e).
 Proof.
   intros [He Hd] Hok. unfold update_one.
   destruct (e_loaded e).
@@ -139,12 +168,12 @@ Proof.
     + apply persist_ok; [exact Hd|]. intros l sg ->. eapply H2. reflexivity.
 Qed.
 
-Lemma inv_lookup cfg st id e : Inv cfg st -> lookup id (entries st) = Some e -> entry_ok cfg e.
+Lemma inv_lookup cfg st id e : InvG cfg st -> lookup id (entries st) = Some e -> entry_ok cfg e.
 Proof.
   intros [He _] H. apply lookup_in in H. rewrite Forall_forall in He. apply (He (id, e) H).
 Qed.
 
-Lemma refresh_all_inv cfg ev f st : Inv cfg st -> Inv cfg (refresh_all cfg ev f st).
+Lemma refresh_all_inv cfg ev f st : InvG cfg st -> InvG cfg (refresh_all cfg ev f st).
 Proof.
   unfold refresh_all. generalize (entries st) at 1. intros ids. revert st.
   induction ids as [|[id e0] ids IH]; intros st H; simpl; [exact H|].
@@ -152,56 +181,65 @@ Proof.
   apply update_one_inv; [exact H|]. eapply inv_lookup; eassumption.
 Qed.
 
-Lemma handshake_inv cfg ev st c : Inv cfg st -> Inv cfg (fst (handshake cfg ev st c)).
+(* a new entry: empty, or adopting what the disk holds — only if that counts under cfg *)
+Lemma new_entry_ok cfg st id c : InvG cfg st -> entry_ok cfg (new_entry cfg st id c).
+Proof.
+  intros [_ Hd]. unfold new_entry.
+  destruct (r_storage cfg); simpl.
+  - split; simpl; [split; [discriminate|intros Hn; exfalso; apply Hn; reflexivity]|discriminate].
+  - destruct (lookup id (disk st)) as [[l sg]|] eqn:Ed; simpl.
+    + destruct (adopt_counts cfg sg (c_chain c)) eqn:Ea; simpl.
+      * split; [split; [discriminate|reflexivity]|]. intros l0 [= <-].
+        apply lookup_in in Ed. rewrite Forall_forall in Hd. eapply D_adopt; [apply (Hd _ Ed)|exact Ea].
+      * split; simpl; [split; [discriminate|intros Hn; exfalso; apply Hn; reflexivity]|discriminate].
+    + split; simpl; [split; [discriminate|intros Hn; exfalso; apply Hn; reflexivity]|discriminate].
+Qed.
+
+Lemma added_state_inv cfg st id c : InvG cfg st -> InvG cfg (added_state cfg st id c).
+Proof.
+  intros H. unfold added_state. destruct (lookup id (entries st)); [exact H|].
+  pose proof (new_entry_ok cfg st id c H) as Hn. destruct H as [He Hd]. split; simpl; [|exact Hd].
+  apply Forall_app. split; [exact He|]. constructor; [exact Hn|constructor].
+Qed.
+
+Lemma loaded_state_inv cfg ev st1 id c : InvG cfg st1 -> InvG cfg (loaded_state cfg ev st1 id c).
+Proof.
+  intros H1. unfold loaded_state. destruct (r_fetch cfg); [|exact H1].
+  destruct (lookup id (entries st1)) as [e|] eqn:El; [|exact H1].
+  destruct (e_loaded e); [exact H1|].
+  pose proof (inv_lookup _ _ _ _ H1 El) as Hok.
+  pose proof (intake_entry_ok cfg ev FirstLoad id e (c_chain c) NoFault Hok) as Hi.
+  pose proof (intake_result_ok cfg ev FirstLoad id e (c_chain c) NoFault) as Hr.
+  destruct (intake cfg ev FirstLoad id e (c_chain c) NoFault) as [e' r]. simpl in *.
+  destruct H1 as [He Hd]. split; simpl.
+  - apply update_forall; [exact He|]. intros k _. exact Hi.
+  - apply persist_ok; [exact Hd|]. intros l sg ->. eapply Hr. reflexivity.
+Qed.
+
+(* the state the handshake's own lookup sees *)
+Lemma lookup_state_inv cfg ev st c : InvG cfg st -> InvG cfg (lookup_state cfg ev st c).
+Proof.
+  intros H. unfold lookup_state.
+  destruct (c_cdps c) as [|cd cds]; [exact H|]. destruct (http_locs c) as [|h hs]; [exact H|].
+  apply loaded_state_inv, added_state_inv, H.
+Qed.
+
+Lemma handshake_inv cfg ev st c : InvG cfg st -> InvG cfg (fst (handshake cfg ev st c)).
 Proof.
   intros H. unfold handshake.
   destruct (c_cdps c) as [|cd cds] eqn:Ec; [exact H|].
   destruct (http_locs c) as [|h hs] eqn:Eh; [exact H|].
-  set (id := h :: hs).
-  (* the state after get-or-add *)
-  assert (H1 : forall st1 added,
-    (match lookup id (entries st) with
-     | Some _ => (st, false)
-     | None => ({| entries := entries st ++ [(id, {| e_locs := id;
-                     e_list := option_map fst (match r_storage cfg with Disk => lookup id (disk st) | Memory => None end);
-                     e_loaded := match (match r_storage cfg with Disk => lookup id (disk st) | Memory => None end) with Some _ => true | None => false end;
-                     e_chain := c_chain c;
-                     e_signer := match (match r_storage cfg with Disk => lookup id (disk st) | Memory => None end) with Some (_, s) => s | None => None end |})];
-                   disk := disk st |}, true)
-     end) = (st1, added) -> Inv cfg st1).
-  { intros st1 added. destruct (lookup id (entries st)); intros [= <- _]; [exact H|].
-    destruct H as [He Hd]. split; simpl; [|exact Hd].
-    apply Forall_app. split; [exact He|]. constructor; [|constructor]. simpl.
-    destruct (r_storage cfg); simpl.
-    - split; simpl; [split; [discriminate|intros Hn; exfalso; apply Hn; reflexivity]|discriminate].
-    - destruct (lookup id (disk st)) as [[l sg]|] eqn:Ed; simpl.
-      + split; [split; [discriminate|reflexivity]|]. intros l0 [= <-].
-        apply lookup_in in Ed. rewrite Forall_forall in Hd. apply (Hd _ Ed).
-      + split; [split; [discriminate|intros Hn; exfalso; apply Hn; reflexivity]|discriminate]. }
-  destruct (match lookup id (entries st) with Some _ => _ | None => _ end) as [st1 added] eqn:E1.
-  specialize (H1 st1 added eq_refl).
-  (* active load *)
-  assert (H2 : Inv cfg (match r_fetch cfg, lookup id (entries st1) with
-      | Active, Some e =>
-        if e_loaded e then st1
-        else let '(e', r) := intake cfg ev FirstLoad id e (c_chain c) NoFault in
-             {| entries := update id e' (entries st1); disk := persist cfg id r (disk st1) |}
-      | _, _ => st1
-      end)).
-  { destruct (r_fetch cfg); [|exact H1]. destruct (lookup id (entries st1)) as [e|] eqn:El; [|exact H1].
-    destruct (e_loaded e); [exact H1|].
-    pose proof (inv_lookup _ _ _ _ H1 El) as Hok.
-    pose proof (intake_entry_ok cfg ev FirstLoad id e (c_chain c) NoFault Hok) as Hi.
-    pose proof (intake_result_ok cfg ev FirstLoad id e (c_chain c) NoFault) as Hr.
-    destruct (intake cfg ev FirstLoad id e (c_chain c) NoFault) as [e' r]. simpl in *.
-    destruct H1 as [He Hd]. split; simpl.
-    - apply update_forall; [exact He|]. intros k _. exact Hi.
-    - apply persist_ok; [exact Hd|]. intros l sg ->. eapply Hr. reflexivity. }
-  cbn [fst]. destruct (r_fetch cfg); simpl; [exact H2|].
-  destruct added; [apply refresh_all_inv; exact H2|exact H2].
+  cbn [fst].
+  assert (H2 : InvG cfg (loaded_state cfg ev (added_state cfg st (h :: hs) c) (h :: hs) c))
+    by (apply loaded_state_inv, added_state_inv, H).
+  destruct (r_fetch cfg); [exact H2|].
+  destruct (lookup (h :: hs) (entries st)); [exact H2|apply refresh_all_inv; exact H2].
 Qed.
 
-Lemma step_inv cfg s x : Inv cfg (snd s) -> Inv cfg (snd (fst (rstep_run cfg s x))).
+Lemma restart_inv cfg cfg' st : Forall (fun p => D cfg' (snd p)) (disk st) -> InvG cfg' (restart cfg st).
+Proof. intros Hd. split; simpl; [constructor|exact Hd]. Qed.
+
+Lemma step_inv cfg s x : InvG cfg (snd s) -> InvG cfg (snd (fst (rstep_run cfg s x))).
 Proof.
   destruct s as [ev st]. intros H. destruct x; simpl.
   - exact H.
@@ -210,16 +248,66 @@ Proof.
   - destruct H as [_ Hd]. split; simpl; [constructor|exact Hd].
 Qed.
 
-Lemma run_inv cfg xs : forall s, Inv cfg (snd s) -> Inv cfg (snd (fst (run_steps cfg s xs))).
+Lemma run_inv cfg xs : forall s, InvG cfg (snd s) -> InvG cfg (snd (fst (run_steps cfg s xs))).
 Proof.
   induction xs as [|x xs IH]; intros s H; simpl; [exact H|].
   pose proof (step_inv cfg s x H) as H1. destruct (rstep_run cfg s x) as [s1 o].
   specialize (IH s1 H1). destruct (run_steps cfg s1 xs). exact IH.
 Qed.
 
+End Generic.
+
+(* ---- instance 1: one configuration for the whole history — the disk holds lists acceptable under it *)
+Definition D_cfg (cfg : rcfg) (r : crl * option N) : Prop := list_ok cfg (fst r).
+Lemma D_cfg_accepts cfg p a avail f l sg : accepts cfg p a avail f = Some (l, sg) -> D_cfg cfg (l, sg).
+Proof. intros H. apply accepts_ok in H. unfold D_cfg. simpl. tauto. Qed.
+Lemma D_cfg_adopt cfg l sg (chain : list N) : D_cfg cfg (l, sg) -> adopt_counts cfg sg chain = true -> list_ok cfg l.
+Proof. intros H _. exact H. Qed.
+
+Definition Inv (cfg : rcfg) (st : rstate) : Prop := InvG D_cfg cfg st.
+
 Lemma init_inv cfg : Inv cfg (snd init_state).
 Proof. split; constructor. Qed.
 
 (* every reachable state satisfies the invariant *)
 Theorem reachable_inv cfg xs : Inv cfg (snd (fst (run_steps cfg init_state xs))).
-Proof. apply run_inv, init_inv. Qed.
+Proof. apply (run_inv D_cfg D_cfg_accepts D_cfg_adopt), init_inv. Qed.
+
+(* ---- instance 2: the configuration may change with every restart — the disk holds what SOME configuration
+   wrote; the adoption check of the current one decides what counts *)
+Definition D_any (cfg : rcfg) (r : crl * option N) : Prop := disk_wf r.
+Lemma D_any_accepts cfg p a avail f l sg : accepts cfg p a avail f = Some (l, sg) -> D_any cfg (l, sg).
+Proof. apply accepts_disk_wf. Qed.
+Lemma adoption_checked : GenFacts.persisted_adoption_checked = true. Proof. reflexivity. Qed.
+Lemma D_any_adopt cfg l sg chain : D_any cfg (l, sg) -> adopt_counts cfg sg chain = true -> list_ok cfg l.
+Proof.
+  intros [Hp Hs] Ha. simpl in *. split; [exact Hp|]. intros Hm.
+  unfold adopt_counts in Ha. rewrite adoption_checked, Hm in Ha.
+  destruct sg as [s|]; [apply Hs; discriminate|discriminate].
+Qed.
+
+Definition InvW (cfg : rcfg) (st : rstate) : Prop := InvG D_any cfg st.
+
+(* a deployment history: segments, each started by a (re)start under its own configuration *)
+Fixpoint run_segments (segs : list (rcfg * list rstep)) (s : env * rstate) : env * rstate :=
+  match segs with
+  | [] => s
+  | (cfg, xs) :: r => run_segments r (fst (run_steps cfg (fst s, restart cfg (snd s)) xs))
+  end.
+
+Lemma segments_disk segs : forall s, Forall (fun p => disk_wf (snd p)) (disk (snd s)) ->
+  Forall (fun p => disk_wf (snd p)) (disk (snd (run_segments segs s))).
+Proof.
+  induction segs as [|[cfg xs] segs IH]; intros s H; simpl; [exact H|].
+  apply IH.
+  pose proof (run_inv D_any D_any_accepts D_any_adopt cfg xs (fst s, restart cfg (snd s))) as Hr.
+  simpl in Hr. destruct Hr as [_ Hd]; [apply (restart_inv D_any cfg cfg); exact H|exact Hd].
+Qed.
+
+Theorem reachable_segments_inv segs cfg xs :
+  let s := run_segments segs init_state in
+  InvW cfg (snd (fst (run_steps cfg (fst s, restart cfg (snd s)) xs))).
+Proof.
+  intros s. apply (run_inv D_any D_any_accepts D_any_adopt cfg xs (fst s, restart cfg (snd s))).
+  simpl. apply (restart_inv D_any cfg cfg). apply segments_disk. simpl. constructor.
+Qed.
